@@ -442,8 +442,11 @@ impl Engine for C07 {
         let corpus = small_corpus(env);
         let mut docs = Vec::new();
         for _ in 0..n_docs {
-            let d = match w.below(13) {
+            let d = match w.below(16) {
                 0 | 1 => Doc::from_str(&docgen::failing_doc(&mut w).0),
+                13 => Doc::from_str(&docgen::crlf_doc(&mut w)),
+                14 => Doc::from_str(&docgen::limit_hitting_doc(&mut w)),
+                15 => Doc::from_str(&docgen::many_failures_doc(&mut w)),
                 2 if !corpus.is_empty() => Doc(corpus[w.usize(corpus.len())].1.clone()),
                 3 => Doc::from_str(&format!(
                     "<svg><rect xy=\"{{{{randint(0, 99)}}}} {{{{randint(0, 99)}}}}\" wh=\"{{{{randint(1, 9)}}}}\" text=\"{{{{random()}}}}\"/><circle cxy=\"^@br\" r=\"{{{{randint(1, 5)}}}}\"/></svg>"
